@@ -412,7 +412,15 @@ def run_poison(sc):
                 raw = body.encode("utf8") if isinstance(body, str) else json.dumps(body).encode("utf8")
             w.harness_channel.basic_publish("", sc.get("queue", "asl_workflow_events"), raw,
                                             pika.BasicProperties(content_type="application/json", message_id=sc.get("message_id")))
-        res = w.run(sc.get("schedule", ()), max_steps=3000, until=quiet(60))
+        # A transition from inside a Branch to a state of an enclosing scope is followed by the engine as a recursive re-entry: every round nests another Branch
+        # level (with a copy of the growing input) into the event. Such an execution is ended by the history limit in the end, but long before that its events
+        # reach megabytes and a single case takes minutes and gigabytes: stop as soon as a queued event exceeds 300 kB and count the case as inconclusive.
+        def runaway(w_):
+            return any(len(m.body) > 300000 for q in w_.broker.queues.values() for m in q.messages)
+        qt = quiet(60)
+        res = w.run(sc.get("schedule", ()), max_steps=3000, until=lambda w_: runaway(w_) or qt(w_))
+        if runaway(w):
+            return "growing"
         if res == "max_steps":
             # The poison execution keeps producing events without virtual time passing (e.g. a transition into an enclosing scope that the engine follows as a loop).
             # A loop is legal in the States Language and is ended by the 25000-event history limit (checked in C16); while it spins, virtual time cannot advance for
@@ -554,6 +562,8 @@ def run_scenario(sc):
     fails = run_poison(sc)
     if fails == "loop":
         return [], ["family-C-isolation", "poison-loops-until-history-limit(inconclusive)"], False
+    if fails == "growing":
+        return [], ["family-C-isolation", "poison-recursion-with-growing-events(inconclusive)"], False
     classes = ["family-C-isolation", "poison-" + sc["kind"]] + (["poison-type-" + sc["type"]] if sc.get("type") else []) + ["mut-" + l.split(":")[0] for l in labels] + (["schedule-deviating"] if any(sc.get("schedule", ())) else [])
     return fails, classes, True
 
